@@ -227,3 +227,181 @@ pub proof fn lemma_bare_name_writable(name: Seq<u8>)
     lemma_tag_plain(ElementParser::Outside, name);
 }
 }
+
+// ---- the public constructors (C09: "events constructed through the public constructors") ----
+pub mod ctor_ {
+use super::*;
+use vstd::prelude::*;
+use vstd::string::*;
+use vstd::utf8::*;
+use escfn_::{escape, spec_escape, p_full, cow_str_bytes, lemma_escaped_clean, axiom_cow_str};
+
+/// std: `impl<T> From<T> for T` -- converting a value into its own type is the identity
+pub axiom fn axiom_into_self_cow<'a>()
+    ensures forall|c: Cow<'a, [u8]>, r: Cow<'a, [u8]>| #[trigger] call_ensures(<Cow<'a, [u8]> as Into<Cow<'a, [u8]>>>::into, (c,), r) ==> r == c;
+
+//@extract events::str_cow_to_bytes | src/events/mod.rs :: fn str_cow_to_bytes | serves=C09
+//@rewrite <'a, C: Into<Cow<'a, str>>>(content: C) ==> <'a>(content: Cow<'a, str>)
+//@rewrite content.into() ==> content
+pub fn str_cow_to_bytes<'a>(content: Cow<'a, str>) -> (r: Cow<'a, [u8]>)
+    // the bytes of the string, borrowed or owned as the string was
+    ensures r@ == cow_str_bytes(content)
+{
+    proof { axiom_cow_mut_bytes(); }
+    match content {
+        Cow::Borrowed(s) => Cow::Borrowed(s.as_bytes()),
+        Cow::Owned(s) => Cow::Owned(s.into_bytes()),
+    }
+}
+//@end
+
+impl<'a> BytesStart<'a> {
+//@extract events::BytesStart::new | src/events/mod.rs :: impl<'a> BytesStart<'a> :: fn new | serves=C09
+//@rewrite <C: Into<Cow<'a, str>>>(name: C) ==> (name: Cow<'a, str>)
+ pub fn new(name: Cow<'a, str>) -> (r: Self)
+        // C09: the element consists of its name
+        ensures r.buf@ == cow_str_bytes(name), r.name_len == r.buf@.len()
+ {
+        proof { axiom_cow_mut_bytes(); }
+        let buf = str_cow_to_bytes(name);
+        BytesStart {
+            name_len: buf.len(),
+            buf,
+        }
+    }
+//@end
+//@extract events::BytesStart::from_content | src/events/mod.rs :: impl<'a> BytesStart<'a> :: fn from_content | serves=C09
+//@rewrite <C: Into<Cow<'a, str>>>(content: C, name_len: usize) ==> (content: Cow<'a, str>, name_len: usize)
+ pub fn from_content(content: Cow<'a, str>, name_len: usize) -> (r: Self)
+        ensures r.buf@ == cow_str_bytes(content), r.name_len == name_len
+ {
+        BytesStart {
+            buf: str_cow_to_bytes(content),
+            name_len,
+        }
+    }
+//@end
+}
+impl<'a> BytesEnd<'a> {
+//@extract events::BytesEnd::new | src/events/mod.rs :: impl<'a> BytesEnd<'a> :: fn new | serves=C09
+//@rewrite <C: Into<Cow<'a, str>>>(name: C) ==> (name: Cow<'a, str>)
+ pub fn new(name: Cow<'a, str>) -> (r: Self)
+        ensures r.name@ == cow_str_bytes(name)
+ {
+        Self::wrap(str_cow_to_bytes(name))
+    }
+//@end
+}
+impl<'a> BytesText<'a> {
+//@extract events::BytesText::from_escaped | src/events/mod.rs :: impl<'a> BytesText<'a> :: fn from_escaped | serves=C09
+//@rewrite <C: Into<Cow<'a, str>>>(content: C) ==> (content: Cow<'a, str>)
+ pub fn from_escaped(content: Cow<'a, str>) -> (r: Self)
+        ensures r.content@ == cow_str_bytes(content)
+ {
+        proof { axiom_into_self_cow(); }
+        Self::wrap(str_cow_to_bytes(content), Decoder::utf8())
+    }
+//@end
+//@extract events::BytesText::new | src/events/mod.rs :: impl<'a> BytesText<'a> :: fn new | serves=C09
+//@rewrite escape(content) ==> escape(Cow::Borrowed(content))
+ pub fn new(content: &'a str) -> (r: Self)
+        // C09: the text is stored fully escaped, so it holds no '<' and unescapes to `content` (theorem of C10)
+        ensures r.content@ == spec_escape(content.spec_bytes(), p_full())
+ {
+        Self::from_escaped(escape(Cow::Borrowed(content)))
+    }
+//@end
+}
+impl<'a> BytesCData<'a> {
+//@extract events::BytesCData::new | src/events/mod.rs :: impl<'a> BytesCData<'a> :: fn new | serves=C09
+//@rewrite <C: Into<Cow<'a, str>>>(content: C) ==> (content: Cow<'a, str>)
+ pub fn new(content: Cow<'a, str>) -> (r: Self)
+        ensures r.content@ == cow_str_bytes(content)
+ {
+        proof { axiom_into_self_cow(); }
+        Self::wrap(str_cow_to_bytes(content), Decoder::utf8())
+    }
+//@end
+}
+impl<'a> BytesPI<'a> {
+//@extract events::BytesPI::new | src/events/mod.rs :: impl<'a> BytesPI<'a> :: fn new | serves=C09
+//@rewrite <C: Into<Cow<'a, str>>>(content: C) ==> (content: Cow<'a, str>)
+ pub fn new(content: Cow<'a, str>) -> (r: Self)
+        // C09: the target is the first whitespace-free word, exactly what the reader computes for a PI
+        ensures r.content.buf@ == cow_str_bytes(content), r.content.name_len == spec_name_len(r.content.buf@)
+ {
+        proof { axiom_cow_mut_bytes(); }
+        let buf = str_cow_to_bytes(content);
+        let name_len = name_len(&buf);
+        Self {
+            content: BytesStart { buf, name_len },
+        }
+    }
+//@end
+}
+/// the characters of an XML declaration body made from its three pseudo-attributes
+pub open spec fn decl_chars(version: Seq<char>, encoding: Option<Seq<char>>, standalone: Option<Seq<char>>) -> Seq<char> {
+    "xml version=\""@ + version
+        + (match encoding { Some(e) => "\" encoding=\""@ + e, None => Seq::<char>::empty() })
+        + (match standalone { Some(x) => "\" standalone=\""@ + x, None => Seq::<char>::empty() })
+        + seq!['"']
+}
+impl<'a> BytesDecl<'a> {
+//@extract events::BytesDecl::new | src/events/mod.rs :: impl<'a> BytesDecl<'a> :: fn new | serves=C09
+//@rewrite BytesStart::from_content(buf, 3) ==> BytesStart::from_content(Cow::Owned(buf), 3)
+//@rewrite-all xs.len() ==> xs.as_bytes().len()
+ pub fn new(
+        version: &str,
+        encoding: Option<&str>,
+        standalone: Option<&str>,
+    ) -> (r: BytesDecl<'static>)
+        // A-size: the capacity computation does not overflow
+        requires (match encoding { Some(x) => x.spec_bytes().len(), None => 0 }) + (match standalone { Some(x) => x.spec_bytes().len(), None => 0 }) + 40 <= usize::MAX,
+        // C09: the pseudo-attributes in the order version, encoding, standalone, each in double quotes; the name is "xml"
+        ensures
+            r.content.name_len == 3,
+            r.content.buf@ == encode_utf8(decl_chars(version@, match encoding { Some(x) => Some(x@), None => None }, match standalone { Some(x) => Some(x@), None => None })),
+    {
+        proof {
+            reveal_strlit("xml version=\""); reveal_strlit("\" encoding=\""); reveal_strlit("\" standalone=\"");
+        }
+        // Compute length of the buffer based on supplied attributes
+        // ' encoding=""'   => 12
+        let encoding_attr_len = if let Some(xs) = encoding {
+            12 + xs.as_bytes().len()
+        } else {
+            0
+        };
+        // ' standalone=""' => 14
+        let standalone_attr_len = if let Some(xs) = standalone {
+            14 + xs.as_bytes().len()
+        } else {
+            0
+        };
+        // 'xml version=""' => 14
+        let mut buf = String::with_capacity(14 + encoding_attr_len + standalone_attr_len);
+
+        buf.push_str("xml version=\"");
+        buf.push_str(version);
+
+        if let Some(encoding_val) = encoding {
+            buf.push_str("\" encoding=\"");
+            buf.push_str(encoding_val);
+        }
+
+        if let Some(standalone_val) = standalone {
+            buf.push_str("\" standalone=\"");
+            buf.push_str(standalone_val);
+        }
+        buf.push('"');
+        proof {
+            assert(buf@ =~= decl_chars(version@, match encoding { Some(x) => Some(x@), None => None }, match standalone { Some(x) => Some(x@), None => None }));
+        }
+
+        BytesDecl {
+            content: BytesStart::from_content(Cow::Owned(buf), 3),
+        }
+    }
+//@end
+}
+}
